@@ -78,8 +78,9 @@ ID_LAMBDA = "C08-reload-lambda-parameter-kind"
 ID_CHAIN = "C08-reload-attribute-chain-flattened"
 ID_INIT_SCOPE = "C08-reload-init-scope-lost"
 ID_MEMBER_KEY = "C08-decode-member-named-kind-or-cls"
+ID_FUNC_MEMBERS = "C08-decode-drops-function-members"
 ALL_IDS = [ID_LINENO, ID_FILEPATH, ID_FULL_BUILTIN, ID_FULL_NS_CWD, ID_SCOPE_SITE, ID_SCOPE_NESTED, ID_STR_PARENT, ID_LAMBDA, ID_CHAIN,
-           ID_INIT_SCOPE, ID_MEMBER_KEY]
+           ID_INIT_SCOPE, ID_MEMBER_KEY, ID_FUNC_MEMBERS]
 
 
 # -- building and loading trees ---------------------------------------------------------------------------------------
@@ -423,7 +424,8 @@ class Walker:
             self.expr(o1.value, o2.value, f"{site}.value", "attribute-value")
             self.expr(o1.annotation, o2.annotation, f"{site}.annotation", "attribute-annotation")
         if list(o1.members) != list(o2.members):
-            self.add(f"{site}: member names / order differ", list(o2.members)[:30], list(o1.members)[:30])
+            self.add(f"{site}: member names / order differ", list(o2.members)[:30], list(o1.members)[:30],
+                     ID_FUNC_MEMBERS if o1.is_function and not o2.members else None)
             return
         for name, m1 in o1.members.items():
             self.obj(m1, o2.members[name])
@@ -443,6 +445,23 @@ def classify_decode_error(exc: BaseException, stats: dict) -> str | None:
                                             (isinstance(exc, TypeError) and frames[-1] == "_load_expression")):
         return ID_MEMBER_KEY
     return None
+
+
+def lost_function_members(original: str, again: str, pointer: str | None) -> bool:
+    """The first difference is the members map of a *function*: non-empty in the original dump, empty after the round trip."""
+    if not pointer or not pointer.endswith("/members"):
+        return False
+
+    def at(doc, ptr):  # noqa: ANN001, ANN202
+        for part in ptr.split("/")[1:]:
+            doc = doc[int(part)] if isinstance(doc, list) else doc[part]
+        return doc
+
+    try:
+        owner1, owner2 = at(json.loads(original), pointer[: -len("/members")]), at(json.loads(again), pointer[: -len("/members")])
+    except (KeyError, IndexError, ValueError):
+        return False
+    return owner1.get("kind") == "function" and bool(owner1.get("members")) and not owner2.get("members")
 
 
 def has_builtin_module(mod) -> bool:  # noqa: ANN001
@@ -536,7 +555,8 @@ def judge(rec, case: dict, mod, tags: tuple = ()) -> None:  # noqa: ANN001, C901
                 else:
                     d = first_difference(dumps[full], again)
                     problems.append(Problem(f"reloaded tree serialises differently (full={full})", d.get("other"),
-                                            {"original": d.get("original"), "at": d.get("pointer", d.get("offset"))}))
+                                            {"original": d.get("original"), "at": d.get("pointer", d.get("offset"))},
+                                            ID_FUNC_MEMBERS if lost_function_members(dumps[full], again, d.get("pointer")) else None))
             # 4. parallel walk + name resolution
             w = Walker(rec)
             try:
@@ -562,11 +582,22 @@ def _report(rec, case: dict, problems: list[Problem], nontrivial: bool, tags: tu
     rec.fail(case, pick.what, observed=pick.observed, expected=pick.expected, finding=pick.finding, nontrivial=nontrivial,
              tags=tags, tried=ALL_IDS)
     if not unexplained:
-        # one refutation is recorded per case; make every *other* listed mechanism seen in it visible as well
+        # one refutation is recorded per case; every *other* listed mechanism seen in the same case is added to the recorder's
+        # known-finding histogram without counting as a further evaluation.  A mechanism that is not (or no longer) listed as
+        # `known` is a refutation of its own.
+        from vf.core.rec import jsonable, known_findings
+
         for fid in sorted({p.finding for p in problems if p.finding != pick.finding}):
             p = next(q for q in problems if q.finding == fid)
-            rec.fail({**case, "also": fid}, p.what, observed=p.observed, expected=p.expected, finding=fid, nontrivial=False, tags=("secondary",),
-                     tried=ALL_IDS)
+            entry = known_findings().get(fid)
+            if entry is not None and entry.get("property") == PROP and entry.get("status") == "known":
+                k = rec.known.setdefault(fid, {"count": 0, "first": None})
+                k["count"] += 1
+                if k["first"] is None:
+                    k["first"] = {"input": jsonable(case), "what": p.what, "observed": jsonable(p.observed), "expected": jsonable(p.expected)}
+            else:
+                rec.fail({**case, "also": fid}, p.what, observed=p.observed, expected=p.expected, finding=fid, nontrivial=False,
+                         tags=("secondary",), tried=ALL_IDS)
 
 
 def run_tree(rec, case: dict) -> None:  # noqa: ANN001
@@ -671,11 +702,11 @@ def shards(tier: str, seed: int) -> list[dict]:
     out = []
     for i in range(16):
         out.append({
-            "static_pkgs": 6 if quick else 130, "importable_pkgs": 3 if quick else 60, "namespaces": 1 if quick else 12,
-            "builtins": [BUILTINS[i % len(BUILTINS)]] if quick else [BUILTINS[i % len(BUILTINS)]],
+            "static_pkgs": 12 if quick else 400, "importable_pkgs": 6 if quick else 150, "namespaces": 2 if quick else 30,
+            "builtins": [BUILTINS[i % len(BUILTINS)]],
             "stdlib": [STDLIB[(2 * i + k) % len(STDLIB)] for k in range(2)] if quick else [STDLIB[(3 * i + k) % len(STDLIB)] for k in range(3)],
             "own": (["griffe"] if i == 0 else ["_griffe"] if i == 1 else []),
-            "cli": 3 if quick else 25, "depth": 2 if quick else 3, "index": i,
+            "cli": 4 if quick else 50, "depth": 2 if quick else 3, "index": i,
         })
     return out
 
